@@ -414,10 +414,30 @@ func (p *Path) binop(op token.Token, xt, yt types.Type, x, y Value) Value {
 			p.abortf("float32 arithmetic unsupported")
 		}
 		if _, ok := x.(XF); ok || isXF(y) {
-			if op != token.QUO {
-				p.abortf("Int back end: only float division is lowered")
+			a, b := p.toXF(x), p.toXF(y)
+			switch op {
+			case token.QUO:
+				return p.xfQuo(a, b)
+			case token.ADD:
+				return p.xfAddSub(a, b, false)
+			case token.SUB:
+				return p.xfAddSub(a, b, true)
+			case token.MUL:
+				return p.xfMul(a, b)
+			case token.LSS:
+				return p.xfCmp(a, b, true)
+			case token.LEQ:
+				return p.xfCmp(a, b, false)
+			case token.GTR:
+				return p.xfCmp(b, a, true)
+			case token.GEQ:
+				return p.xfCmp(b, a, false)
+			case token.EQL:
+				return smt.And(p.xfCmp(a, b, false), p.xfCmp(b, a, false))
+			case token.NEQ:
+				return smt.Not(smt.And(p.xfCmp(a, b, false), p.xfCmp(b, a, false)))
 			}
-			return p.xfDiv(p.toXF(x), p.toXF(y))
+			p.abortf("Int back end: float operation %s is not lowered", op)
 		}
 		a, b := x.(*smt.Term), y.(*smt.Term)
 		switch op {
@@ -705,6 +725,19 @@ func (p *Path) conv(tDst, tSrc types.Type, x Value) Value {
 			p.abortf("conversion to unsafe.Pointer")
 		}
 		ks := basicInfo(ut_src)
+		if xf, ok := x.(XF); ok {
+			switch {
+			case kd.isFloat && kd.w == 64:
+				return xf
+			case kd.isInt && !kd.signed:
+				d := p.xfToIntegral(xf, 4).exact
+				if p.branch(smt.ILe(pow2(kd.w), d)) {
+					p.abortf("float->int conversion out of range (implementation-defined in Go)")
+				}
+				return d
+			}
+			p.abortf("Int back end: conversion %s -> %s not lowered", tSrc, tDst)
+		}
 		t, ok := x.(*smt.Term)
 		if !ok {
 			p.abortf("unsupported conversion %s -> %s (%T)", tSrc, tDst, x)
@@ -1075,9 +1108,8 @@ func (p *Path) toXF(v Value) XF {
 	case XF:
 		return v
 	case *smt.Term:
-		if v.Sort.K == smt.SFP && v.IsConst() && v.F == math.Trunc(v.F) && v.F >= 0 && v.F < 1.9e19 {
-			bi, _ := new(big.Float).SetFloat64(v.F).Int(nil)
-			return XF{exact: smt.ConstInt(bi)}
+		if v.Sort.K == smt.SFP && v.IsConst() {
+			return p.xfConst(v.F)
 		}
 	}
 	p.abortf("Int back end: float operand is neither lowered nor an integer constant")
